@@ -90,6 +90,7 @@ _k("p6_p7_p8_transaction_reads", CI, "Pk", ["C01", "C02", "C03", "C06"], "quick"
 _k("p9_commit", CI, "Pk", ["C01", "C02", "C12"], "quick", "every valid wrap / counter / increment / interfering value")
 _k("p9_commit_direct_reload", CI, "Pk", ["C01", "C02", "C12"], "quick", "every valid wrap / counter / increment")
 _k("p_cover_wraps", CI, "Pk", ["C03"], "thorough", "vacuity guard for the wrap assumption")
+_k("p12_std_pow2_specs", CI, "Pk", ["C03", "C09"], "quick", "all 2^64 inputs; discharges the two std contracts the Verus layer assumes")
 
 # S1/S2/S3: ring operations from an arbitrary well-formed state
 for (n, k, tier) in ((1, 2, "quick"), (2, 2, "quick"), (4, 3, "thorough")):
@@ -299,7 +300,7 @@ TITLES = {}
 FUNCTIONS = [
     ("p1_", "countedindex::past"), ("p2_", "countedindex::{is_tagged, rm_tag}"), ("p4_", "countedindex::get_valid_wrap"),
     ("p5_", "CountedIndex::{new, from_usize, wrap_at, load, load_raw, load_count}"), ("p6_", "Transaction::{get, matches_previous}, CountedIndex::get_previous"),
-    ("p9_", "Transaction::{commit, commit_direct, reload}"), ("p10_", "wait::{check, load_tagless}"), ("p11_", "AtomicSignal::*, LoadedSignal::*"),
+    ("p9_", "Transaction::{commit, commit_direct, reload}"), ("p10_", "wait::{check, load_tagless}"), ("p12_", "std u64::{next_power_of_two, is_power_of_two} (contracts assumed by Verus)"), ("p11_", "AtomicSignal::*, LoadedSignal::*"),
     ("s1p_", "MultiQueue::try_send_single (pinned slot)"), ("s2p_", "MultiQueue::try_send_multi (pinned slot)"),
     ("s1_", "MultiQueue::try_send_single, reload_tail_single, ReadCursor::get_max_diff"), ("s2_", "MultiQueue::try_send_multi, reload_tail_multi, ReadCursor::get_max_diff"),
     ("s3_", "MultiQueue::try_recv, Reader::load_attempt, ReadAttempt::commit_attempt"), ("s4_", "MultiQueue::try_recv_view"),
